@@ -4,4 +4,4 @@ META = {'bounds': 'local obligations from every list shape of <= 3 slots (induct
         'assumptions': ['as C05'], 'trusted_base': ['harness/tx/pairing.c', 'harness/tx/hist.c ghost request/response tags']}
 def obligations(tier):
     import streamobs as so
-    return txobs.pairing('quick') + txobs.hist_all(tier, 'quick') + [o for o in txobs.complete_all('quick') if 'response_complete_ex' in o.name] + [so.res_step(4, n=4), so.res_step(1, n=4)]
+    return txobs.pairing('quick') + txobs.hist_all(tier, 'quick') + [o for o in txobs.complete_all('quick') if 'response_complete_ex' in o.name] + [so.res_step(4, n=4), so.res_step(1, n=4)] + [o for o in __import__('C16').obligations('quick') if o.name.startswith('req.CONNECT_')]   # after a CONNECT the tunnelled requests are only paired if the tunnel/HTTP decision is taken on a whole line
